@@ -353,6 +353,20 @@ def scenario_buffer(sim: Sim) -> None:
         finally:
             if os.path.exists(path):
                 os.remove(path)
+    if ch.chance("query_empty_buffer", 0.25):
+        # before the first update: nothing is stored, so nothing may be reported or returned (never unwritten slots)
+        sim.probe("empty_buffer_queried")
+        if buf.count_valid() != 0 or buf.count_covered() != 0 or list(buf.gaps):
+            sim.violation("count_valid", dict(sig, what="empty buffer"),
+                          f"new buffer: count_valid {buf.count_valid()} count_covered {buf.count_covered()} gaps {buf.gaps}")
+        if buf.oldest_timestamp is not None or buf.newest_timestamp is not None:
+            sim.violation("timestamps", dict(sig, what="not None for an empty buffer"),
+                          f"oldest {buf.oldest_timestamp} newest {buf.newest_timestamp}")
+        t_a = m.ts(m.slot_base)
+        for q in ((t_a, t_a + timedelta(microseconds=3 * period_us)), (None, None), (0, 2), (-2, None)):
+            w = buf.window(q[0], q[1], force_copy=True, fill_value=None)
+            if len(w) != 0:
+                sim.violation("window", dict(sig, what="empty buffer returns slots"), f"window{q} of a new buffer = {list(w)}")
     for ts, v, kind in hist:
         s = m.slot(ts)
         if kind not in ("ok",) or ts != m.ts(s):
